@@ -29,6 +29,12 @@ CHECKS.update({
  "C04": ("3/C04", "All histories of response datagrams, clock steps (1 ms .. 3 h) and browser start/cancel to the reported depth on a live instance with AsyncServiceBrowser, de-duplicated by canonical state; alternation automaton per (type, instance), live set == cached pointer set at every quiescent point, cache content observed from inside add_service.",
          "Trusted: virtual loop/clock; histories respect the restrictions of the quantifier (exact owner names, no case twins in one datagram, no browser start over expired-unpurged pointers)."),
 })
+CHECKS.update({
+ "C08": ("3/C08", "Full product grid (9 query kinds x arrival offsets 1..1199 ms before the withdrawal x jitter x 3 registry shapes x unregister/async_close/sync close x second query) executed on a real instance; the withdrawing host's trace must show exactly three complete goodbyes 125 ms apart and no withdrawn record with TTL>0 afterwards for 6 s.",
+         "Trusted: virtual loop/link; API calls are sequential (operation model of the statement); answers between the first and third goodbye are not judged."),
+ "C10": ("3/C10", "The complete tree of learn/refresh/re-case/withdraw histories (depth 2, thorough 3) x gap menu around 0/1 s/20 s/40 s and 75/85/95/100 % of the TTLs x browser delay 1/10/60 s x forced question types, each run to expiry of every record on a real AsyncServiceBrowser; query-trace oracle for start-up schedule, refresh windows, rate limit, unexplained queries, liveness and armed timer.",
+         "Trusted: window tolerances listed in the evidence assumptions (one delay early, accumulated lateness)."),
+})
 NOT_YET = {}
 
 def main():
